@@ -1,4 +1,5 @@
 """C11 Tree tensor network states behave as dense vectors for every topology."""
+from vk.symx.harness import guarded
 import numpy as np
 
 from vk.rtc.harness import run_cases
@@ -215,7 +216,7 @@ def w_find_path(case, led):
 
 def check(run):
     from props import C11_sym
-    C11_sym.prove(run)
+    guarded(run, C11_sym.prove)
     seeds = list(range(run.seed * 100, run.seed * 100 + (3 if run.tier == "quick" else 12)))
     cases = [(nn, fl, s, run.tier) for s in seeds for nn in ((2, 3, 4, 5) if run.tier == "quick" else (2, 3, 4, 5, 6)) for fl in ("spinqn", "holstein", "spin")]
     run_cases(run, worker, cases)
